@@ -53,6 +53,34 @@ CLAIMED["C01"] = (
     "comments in four positions (known_findings.jsonl).",
     "DESIGN.md C01")
 
+CLAIMED["C03"] = (
+    "Rocq/Coq theorems on the severity bookkeeping (instance -> file -> exit status) for any population; "
+    "single-fault injection through the real reader and p21read with confinement check",
+    "Coq theorems (coq/Properties_C03.v, axiom-free) over coq/FileSev.v, whose switches COMPLEX_APPENDS and "
+    "P21READ_FAIL_AT are regenerated from STEPfile.cc / p21read.cc on every run: for ANY list of per-instance outcomes, "
+    "one instance that pass 1 could not create or that was read with severity INCOMPLETE or worse makes the file "
+    "severity worse than a user message and the reference tool exit non-zero; attribute errors are never lost in the "
+    "instance severity; a clean population is reported clean. The model is tied to STEPfile.cc by feeding it the "
+    "per-instance severities observed through the guarded VERIF-INST hook and comparing file severity and p21read's "
+    "exit status. That each listed fault class is detected at the attribute level, and confinement, are checked by "
+    "fault injection (16 classes) on generated populations, not by theorems.",
+    "Partial: bookkeeping proved; attribute-level detection and confinement are tests. Trusted: hook lines, "
+    "tools/popgen.py fault injector, harness/h_file.cc, one fixed schema.",
+    "DESIGN.md C03")
+CLAIMED["C15"] = (
+    "Rocq/Coq finite-table theorem over the null pre-check regenerated from the source + verdict theorems; "
+    "attribute-level and file-level correspondence in strict and lenient mode",
+    "coq/gen/NullTable.v (which kinds get which lenient filler, the five severities, whether complex records pass "
+    "their error on, p21read's threshold) is regenerated from STEPattribute.cc / STEPfile.cc / p21read.cc on every "
+    "run; coq/Properties_C15.v proves (axiom-free) that it equals the documented table over the whole finite domain "
+    "strict x optional x 11 kinds, that any population of clean/USERMSG instances is accepted (exit 0) and any "
+    "INCOMPLETE instance rejects the file, and the instance severity of a single substitution. Tied to the code by "
+    "reading '$,' ',' ')' into every attribute of every entity of schemas/verif_all.exp in both modes, and by "
+    "populations with one attribute replaced by `$` (own, inherited, inside complex parts) through h_file and the real "
+    "p21read (exit status, file severity, written value, hooked instance severity).",
+    "Trusted: tools/translate.py regular expressions, hook lines, harnesses, one fixed schema.",
+    "DESIGN.md C15")
+
 NOT_APPLICABLE = {}
 
 ALL = ["C%02d" % i for i in range(1, 21)]
